@@ -150,6 +150,10 @@ func (w *World) Explore(spec HarnessSpec) (*Report, error) {
 	}
 	if spec.Solver == "" {
 		spec.Solver = "z3"
+		if spec.Cfg.IntMode {
+			// z3 4.8.12 answers unknown on div/mod by large constants; 5.1.0 decides them at once
+			spec.Solver = "z3-new"
+		}
 	}
 	cfg := spec.Cfg
 	if cfg.MaxSteps == 0 {
@@ -187,6 +191,9 @@ func (w *World) Explore(spec HarnessSpec) (*Report, error) {
 		go func(wi int) {
 			defer wg.Done()
 			sol, err := NewSolver(spec.Solver, cfg.QueryTimeout)
+			if err == nil {
+				sol.IntMode = cfg.IntMode
+			}
 			if err != nil {
 				mu.Lock()
 				firstErr = err
